@@ -1595,6 +1595,8 @@ func NoSharedCell(c *core.Ctx, rule string, p *packages.Package, floor int) {
 					for _, a := range call.Args {
 						if fl, ok := ast.Unparen(a).(*ast.FuncLit); ok {
 							onceLits[fl] = true
+						} else if fl := resolveLit(info, fb.Decl, a); fl != nil {
+							onceLits[fl] = true // once.Do(compute) with compute := func() { … }
 						}
 					}
 				}
